@@ -15,7 +15,7 @@ EXAMPLES = {"quick": 900, "thorough": 18000}
 RULE = ("Generated: one asset under test - SimpleContract / Contract (with and without buy/sell spread, takes), Storage "
         "(efficiency, in/out costs, inflow, start != end, one or two nodes), Transport / ExtendedTransport (efficiency, "
         "costs), MultiCommodityContract - given freq = m x grid frequency (m in 2..4, window on whole coarse steps or "
-        "trailing remainder) or a periodicity of p steps (optionally within durations of p*q steps), plus ordinary "
+        "trailing remainder) or a periodicity of p steps (optionally within durations of p*q steps), or both at once (freq = 2 steps, period = 2-3 coarse steps), plus ordinary "
         "companions (market pairs with time-varying prices, a storage, contracts) on uniform grids of 4-16 steps. "
         "Oracle: the same portfolio with the PLAIN asset is assembled by EAO and the harness adds explicit equality "
         "rows (constant rate inside each coarse interval; equal values at equal positions of the periods within a "
@@ -37,7 +37,9 @@ def _strategy(draw):
     nodes = ["n%d" % i for i in range(nn)]
     prices = {"p0": draw(gen.price_series(T)), "p1": draw(gen.price_series(T))}
     cx = gen.Cx(g, nodes, prices)
-    mode = draw(st.sampled_from(["coarse", "coarse", "periodic", "periodic"]))
+    mode = draw(st.sampled_from(["coarse", "coarse", "coarse", "periodic", "periodic", "periodic", "both"]))
+    if mode == "both" and T < 8:
+        mode = "coarse"
     cls = draw(st.sampled_from(["simple", "simple_spread", "contract", "storage", "storage2", "transport", "exttransport",
                                 "multi"]))
     if cls in ("transport", "exttransport", "storage2") and nn < 2:
@@ -91,6 +93,18 @@ def _strategy(draw):
                     dur_old = float(sum(tl.dt(g, ts, te)))
                     new.append([ns, ne, v / dur_old * float(sum(tl.dt(g, ns, ne)))])
                 a[key] = new
+    elif mode == "both":
+        # a coarser frequency and a periodicity of whole coarse steps on the same asset
+        m = 2
+        pc = draw(st.sampled_from([2, 2, 3])) if T >= 12 else 2
+        a["freq"] = tl.freq_multiple(g["freq"], m)
+        a["periodicity"] = tl.freq_multiple(g["freq"], m * pc)
+        a["_m"], a["_p"] = m, m * pc
+        a["start"] = a["end"] = None
+        a.pop("min_take", None)
+        a.pop("max_take", None)
+        if a["type"] == "storage":
+            a["cost_store"] = 0.0
     else:
         p = draw(st.sampled_from([2, 2, 3, 4]))
         a["periodicity"] = tl.freq_multiple(g["freq"], p)
@@ -141,6 +155,14 @@ def groups(spec, a, steps):
         s0, ncomp = coarse_steps(a, T)
         grp = [[t for t in range(s0 + j * m, s0 + (j + 1) * m) if 0 <= t < T] for j in range(ncomp)]
         return [x for x in grp if x]
+    if spec["mode"] == "both":
+        # equal inside a coarse step, and coarse steps a whole number of periods apart are equal
+        m, pc = a["_m"], a["_p"] // a["_m"]
+        byk = {}
+        for t in steps:
+            if t < (T // m) * m:
+                byk.setdefault((t // m) % pc, []).append(t)
+        return [v for v in byk.values() if len(v) > 1]
     p = a["_p"]
     q = a.get("_q")
     byk = {}
@@ -172,7 +194,7 @@ def check(spec):
     r = obs.Run(spec)
     if is_err(r.op):
         return out.fail("set-up of a %s asset with %s raised %s"
-                        % (a["type"], "freq=" + a["freq"] if spec["mode"] == "coarse" else "periodicity=" + a["periodicity"],
+                        % (a["type"], "freq=" + a["freq"] if spec["mode"] != "periodic" else "periodicity=" + a["periodicity"],
                            r.op.short()))
     res = r.optimize()
     if is_err(res):
@@ -182,7 +204,7 @@ def check(spec):
     pa = plain["assets"][0]
     for k in ("freq", "periodicity", "periodicity_duration"):
         pa.pop(k, None)
-    if spec["mode"] == "coarse":
+    if spec["mode"] in ("coarse", "both"):
         s0, ncomp = coarse_steps(a, T)
         pa["start"], pa["end"] = s0, s0 + ncomp * a["_m"]     # the trailing remainder has no coarse step
         for key in ("min_take", "max_take"):                   # takes refer to whole coarse steps
